@@ -126,3 +126,9 @@ func Yield() {}
 // alternate whenever one of them has to wait. JoinThread lets it finish and reports whether one ran.
 func SpawnAsThread(on bool) {}
 func JoinThread() bool      { return false }
+
+// MaxAlloc: size of the largest single byte-buffer allocation so far; reset=true starts a new measurement.
+func MaxAlloc(reset bool) int { return 0 }
+
+// OverrideIfPresent: like Override, for a library function the current tree may not call at all.
+func OverrideIfPresent(name string, f interface{}) {}
